@@ -465,3 +465,93 @@ Proof.
     + apply IH in H. exact H.
   - apply IH in H. exact H.
 Qed.
+
+(* ------------------------------------------------------------------------- *)
+(* 4. the climbing parser's tree is the conventional one, declaratively:       *)
+(*    no operand is an unparenthesised application that binds looser            *)
+(* ------------------------------------------------------------------------- *)
+Section ClimbPrec.
+  Variable pr : N -> N.
+  Variable left : N -> bool.
+
+  Definition closing' (m : N) (ws : list tok) : Prop :=
+    match ws with TOp o :: _ => pr o < m | _ => True end.
+
+  Definition root_ge (m : N) (e : ex) : Prop :=
+    match root_op e with Some o => m <= pr o | None => True end.
+
+  Lemma climb_closing f :
+    (forall m ws e rest, climb_expr pr left f m ws = Some (e, rest) -> closing' m rest) /\
+    (forall m l ws e rest, climb_loop pr left f m l ws = Some (e, rest) -> closing' m rest).
+  Proof.
+    induction f as [|f (IHe & IHl)].
+    - split; intros; discriminate.
+    - split.
+      + intros m ws e rest H. rewrite climb_expr_S in H.
+        destruct (climb_atom pr left f ws) as [[l r1]|]; [|discriminate].
+        apply (IHl _ _ _ _ _ H).
+      + intros m l ws e rest H. rewrite climb_loop_S in H.
+        destruct ws as [|[|o| |] ws1]; try (inversion H; subst; exact I).
+        destruct (m <=? pr o) eqn:Hm.
+        * destruct (climb_expr pr left f (thr pr left o) ws1) as [[r rest1]|]; [|discriminate].
+          apply (IHl _ _ _ _ _ H).
+        * inversion H; subst. apply N.leb_gt in Hm. exact Hm.
+  Qed.
+
+  Lemma climb_prec_all f :
+    (forall m ws e rest, climb_expr pr left f m ws = Some (e, rest) ->
+       prec_ok pr left e = true /\ root_ge m e) /\
+    (forall m l ws e rest, climb_loop pr left f m l ws = Some (e, rest) ->
+       prec_ok pr left l = true -> root_ge m l ->
+       (forall ol, root_op l = Some ol -> closing' (thr pr left ol) ws) ->
+       prec_ok pr left e = true /\ root_ge m e) /\
+    (forall ws e rest, climb_atom pr left f ws = Some (e, rest) ->
+       prec_ok pr left e = true /\ root_op e = None).
+  Proof.
+    induction f as [|f (IHe & IHl & IHa)].
+    - repeat split; intros; discriminate.
+    - split; [|split].
+      + intros m ws e rest H. rewrite climb_expr_S in H.
+        destruct (climb_atom pr left f ws) as [[l r1]|] eqn:Ea; [|discriminate].
+        destruct (IHa _ _ _ Ea) as [Hp Hr].
+        apply (IHl _ _ _ _ _ H Hp).
+        * unfold root_ge. rewrite Hr. exact I.
+        * intros ol Hol. congruence.
+      + intros m l ws e rest H Hp Hg Hc. rewrite climb_loop_S in H.
+        destruct ws as [|[|o| |] ws1]; try (inversion H; subst; split; assumption).
+        destruct (m <=? pr o) eqn:Hm; [|inversion H; subst; split; assumption].
+        apply N.leb_le in Hm.
+        destruct (climb_expr pr left f (thr pr left o) ws1) as [[r rest1]|] eqn:Ee;
+          [|discriminate].
+        destruct (IHe _ _ _ _ Ee) as [Hpr Hgr].
+        pose proof (proj1 (climb_closing f) _ _ _ _ Ee) as Hcl.
+        apply (IHl _ _ _ _ _ H).
+        * cbn [prec_ok]. rewrite Hp, Hpr. cbn [andb].
+          apply andb_true_iff. split.
+          -- destruct (root_op l) as [ol|] eqn:El; [|reflexivity].
+             specialize (Hc ol eq_refl). cbn in Hc. unfold thr in Hc.
+             destruct (left ol).
+             ++ destruct (pr o <? pr ol) eqn:Q; [reflexivity|].
+                apply N.ltb_ge in Q. cbn. rewrite andb_true_r. apply N.eqb_eq. lia.
+             ++ apply orb_true_iff. left. apply N.ltb_lt. exact Hc.
+          -- unfold root_ge in Hgr. destruct (root_op r) as [or_|]; [|reflexivity].
+             apply N.leb_le. exact Hgr.
+        * unfold root_ge. cbn. exact Hm.
+        * intros ol Hol. cbn in Hol. inversion Hol; subst. exact Hcl.
+      + intros ws e rest H. rewrite climb_atom_S in H.
+        destruct ws as [|[|o| |] ws1]; try discriminate.
+        * inversion H; subst. split; reflexivity.
+        * destruct (climb_expr pr left f 0 ws1) as [[e1 [|[|o| |] rest1]]|] eqn:Ee;
+            try discriminate.
+          inversion H; subst. destruct (IHe _ _ _ _ Ee) as [Hp _].
+          split; [exact Hp|reflexivity].
+  Qed.
+
+  Theorem climb_prec_ok fuel ws t : climb pr left fuel ws = Some t -> prec_ok pr left t = true.
+  Proof.
+    unfold climb. intros H.
+    destruct (climb_expr pr left fuel 0 ws) as [[e [|x r]]|] eqn:E; try discriminate.
+    inversion H; subst. destruct (climb_prec_all fuel) as (He & _ & _).
+    apply (He _ _ _ _ E).
+  Qed.
+End ClimbPrec.
